@@ -27,7 +27,8 @@ ANCHORS = ["Scenario.assign_obstacles_to_lanelets", "Scenario._add_static_obstac
 REQUIRED = ["op.add", "op.assign-all", "op.assign-ids", "op.assign-times", "op.assign-center-only", "op.remove",
             "op.remove-list", "op.re-add", "route.xml", "route.protobuf", "shape.Rectangle", "shape.Circle",
             "shape.Polygon", "shape.ShapeGroup", "obstacle.static", "obstacle.dynamic-trajectory", "obstacle.dynamic-none",
-            "straddling(centre-lanelets<shape-lanelets)", "inv-g-checked", "inv-r-checked", "op.move"]
+            "straddling(centre-lanelets<shape-lanelets)", "inv-g-checked", "inv-r-checked", "op.move",
+            "centre-on-a-lanelet-the-occupancy-does-not-touch"]
 EXHAUSTIVE = {"quick": "all histories of length <= 2 over the 10-operation alphabet on a fixed 2-obstacle universe",
               "thorough": "all histories of length <= 3 over the 10-operation alphabet on a fixed 2-obstacle universe"}
 ASSUMPTIONS = ["set-based predictions are outside the quantifier", "obstacles are added after the network exists",
@@ -52,8 +53,14 @@ def gen_obstacle(rng, oid, lanelets, kind=None, shape_kind=None):
         shape = Circle(rng.choice([0.5, 1.0, 2.0]))
     elif sk == "Polygon":
         shape = Polygon(np.array([[-1.0, -0.5], [1.0, -0.5], [1.0, 0.5], [-1.0, 0.5]]) * rng.choice([1.0, 2.0]))
+        if rng.random() < 0.4:
+            # the body does not cover its own reference point (e.g. a load carried beside the vehicle): the centre may lie
+            # on a lanelet that the occupancy does not touch
+            shape = Polygon(np.array([[-1.0, 3.0], [1.0, 3.0], [1.0, 4.5], [-1.0, 4.5]]))
     else:
         shape = ShapeGroup([Rectangle(2.0, 1.0), Circle(0.5, np.array([2.0, 0.0]))])
+        if rng.random() < 0.4:
+            shape = ShapeGroup([Rectangle(2.0, 1.0, np.array([0.0, 4.0])), Rectangle(2.0, 1.0, np.array([0.0, -4.0]))])
 
     def place():
         la = rng.choice(lanelets)
@@ -155,6 +162,8 @@ def run(ctx):
             cm, cu, sm, su, half = truth(net, ob, t)
             if len(cm) < len(sm):
                 ctx.feature("straddling(centre-lanelets<shape-lanelets)")
+            if cm - sm - su:
+                ctx.feature("centre-on-a-lanelet-the-occupancy-does-not-touch")
             rc = recorded(ob, t, "center")
             role = "static" if isinstance(ob, StaticObstacle) else "dynamic"
             sk = type(ob.obstacle_shape).__name__
